@@ -295,6 +295,16 @@ package option
 //@   ensures sort.sorted {C18,C20}: SortedByName(final(list))
 //@   ensures sort.perm {C18}: (forall i int :: 0 <= i && i < len(list) ==> inseq(list[i], final(list))) && (forall i int :: 0 <= i && i < len(list) ==> inseq(final(list)[i], list))
 
+// Sort$1: the comparison handed to sort.Slice. Sort itself is trusted, its comparison is not: it is exactly "smaller name",
+// so two records tie only when their names are equal and the order of the result does not depend on the order of the input.
+// The precondition is what sort.Slice guarantees (valid indices) plus non-nil records (every caller builds the list from
+// option tables, whose records are non-nil); it is assumed, the closure is only called by the library.
+//@ func Sort$1
+//@   props C18 C20
+//@   requires less.idx: 0 <= i && i < len(list) && 0 <= j && j < len(list) && list[i] != nil && list[j] != nil
+//@   modifies
+//@   ensures less.byname {C18,C20}: result == (list[i].Name < list[j].Name)
+
 // Value: reads the receiver of the option's kind (safety: the representation invariant makes that pointer non-nil).
 //@ func (*Option).Value
 //@   props C06 C19
